@@ -18,6 +18,7 @@ Declared rewrites of the extracted text (complete list; each application is logg
   R4 resolve `#[cfg(feature = "..")]` / `#[cfg(not(feature = ".."))]` on the next statement/item for the unit's feature set
   R5 name the return value: `-> T {` becomes `-> (name: T)` followed by the contract
   R6 `debug_assert*!( .. );` statements dropped (compiled out in release; Verus has no model of them)
+  R7 visibility `pub(crate)` / `pub(super)` widened to `pub` (single-file unit; Verus requires pub for open spec use)
 Nothing else is changed; if Verus rejects the result the unit is a tool error (exit 2), never a violation.
 """
 import os, re
@@ -123,6 +124,9 @@ def _rewrite(block_lines, feats, log):
             log.append("R4 cfg %s disabled: %d lines dropped" % (s, k - i + 1))
             i = k + 1
             continue
+        if re.match(r"^\s*pub\((crate|super)\)\s", l):
+            l = re.sub(r"pub\((crate|super)\)", "pub", l, count=1)
+            log.append("R7 visibility widened to pub")
         out.append(l)
         i += 1
     return out
